@@ -24,6 +24,9 @@ Suites
              the observed objects, per-gate parameter reads, order of random draws replayed in the
              scheduler model lean/QV/Model/Parallel.lean; every result against the job run alone
   final      circuit._final_state after every prefix of a history = the model's St.final
+  gate-binding  (tools/props/C14_gates.py) plain executions interleaved with executions that take a
+             Circuit as initial state, and the gate-level results m = circuit.add(gates.M(...)) read
+             in between, against lean/QV/Model/GateBinding.lean and against the last execution
   writes     attribute writes made by an execution (statistics) and their effect on old results
 """
 from __future__ import annotations
@@ -1288,4 +1291,6 @@ def run(ctx):
     suite_parallel(ctx, legacy)
     from props import C14_parallel
     C14_parallel.run_suites(ctx)
+    from props import C14_gates
+    C14_gates.run_suites(ctx)
     suite_writes(ctx)
